@@ -708,6 +708,17 @@ def gen(seed, profile, cfg=None):
         condition_load(scn)
     scn['seed'] = seed
     scn['profile'] = profile
+    if profile in BYSTANDER_PROFILES:
+        rb = random.Random(seed * 40503 % 2**32 + 7)
+        if rb.random() < 0.15:
+            gb = G(seed ^ 0x5bd1e995, cfg)
+            by = [dict(gb.motor('bystander_motor', current=True),
+                       pwm=rb.choice([None, 0.3, -0.6, 0]))]
+            if rb.random() < 0.5:
+                by.append({'kind': 'SpurGear', 'name': 'bystander_gear',
+                           'z': gb.teeth(), 'J': gb.inertia(), 'm': None,
+                           'b': None, 'E': None})
+            scn['bystanders'] = by
     if profile in NP_PROFILES and \
             random.Random(seed * 2654435761 % 2**32).random() < 0.06:
         # the caller computes its numbers with numpy: every float literal of
@@ -716,6 +727,7 @@ def gen(seed, profile, cfg=None):
     return scn
 
 
+BYSTANDER_PROFILES = ('dyn', 'lock', 'ctrl', 'motor', 'stop', 'sched')
 NP_PROFILES = ('dyn', 'lock', 'sched', 'stop', 'tv', 'query', 'ctrl',
                'motor', 'stress', 'grid', 'decl', 'quant')
 
@@ -1572,7 +1584,9 @@ def gen_decl(g):
     for _ in range(r.choice([0, 1, 2])):
         add({'kind': 'Flywheel', 'J': g.inertia()})
     modules = [g.q('Length', x * 1e-3) for x in r.sample([0.5, 1, 2, 3, 4], 2)]
-    helixes = [g.q('Angle', x * pi / 180) for x in r.sample([10, 15, 20, 30], 2)]
+    helixes = [g.q('Angle', x * pi / 180)
+               for x in r.sample([0, 10, 15, 20, 30], 2)]
+    helixes = [[0 if h[0] == 0 else h[0], h[1]] for h in helixes]
     for _ in range(r.choice([2, 3, 4, 5])):
         add({'kind': 'SpurGear', 'z': g.teeth(), 'J': g.inertia(),
              'm': list(r.choice(modules)) if g.chance(0.7) else None,
@@ -1597,6 +1611,14 @@ def gen_decl(g):
     if g.chance(0.3):
         i, j = r.sample(range(len(els)), 2)
         els[j]['name'] = els[i]['name']
+    if g.chance(0.15):
+        # names that differ only by letter case are different names; mixed
+        # with exact duplicates
+        idx = r.sample(range(len(els)), min(len(els), r.choice([2, 3, 3])))
+        base = els[idx[0]]['name']
+        variants = [base, base.upper(), base]
+        for k_, ii in enumerate(idx):
+            els[ii]['name'] = variants[k_ % 3] if g.chance(0.8) else base.upper()
     esi = [rm.elem_si(e) for e in els]
     model = rm.DeclModel(esi)
     decls = []
@@ -2044,7 +2066,11 @@ def gen_badparams(g):
         ('pwm_outside', 'DCMotor', dict(good_motor, pwm=r.choice([1.0000001, -1.0000001, 2, -7.5]))),
         ('teeth<minimum', 'SpurGear', {'z': r.choice([9, 5, 1, 0, -3])}),
         ('elastic_modulus<=0', 'SpurGear', {'z': 20, 'E': [r.choice([0.0, -1.0, -210.0]), r.choice(si.units_of('Stress'))]}),
-        ('helix>=90deg', 'HelicalGear', {'beta': q('Angle', r.choice([90.0, 90.5, 120.0, 179.0]) * pi / 180)}),
+        ('helix>=90deg', 'HelicalGear', dict(
+            {'beta': q('Angle', r.choice([90.0, 90.5, 120.0, 179.0, 180.0, 269.0,
+                                          271.0, 300.0, 359.5, 360.0, 370.0, 449.0,
+                                          451.0, 725.0, r.uniform(90, 2000)]) * pi / 180)},
+            **({'bare': True} if g.chance(0.5) else {}))),
     ]
     alpha = r.choice([14.5, 20.0, 25.0, 30.0])
     hmax = rm.WORM_TABLE[alpha][0]
